@@ -143,7 +143,11 @@ def handleWire : Handler := fun op j =>
       pure (Json.mkObj [("s", textJson (Utf8.decodeSE bs))])
   | "wire_write" => some do
       let objs ← (← getArr j "objs").toList.mapM pvOfJson
-      match writeAll WState.init objs with
+      -- optional "fails": per object `null` (the write succeeds) or k (it raises after k descriptors were met)
+      let fails : List (Option Nat) := match j.getObjVal? "fails" with
+        | .ok (Json.arr a) => a.toList.map (fun x => match x.getNat? with | .ok n => some n | .error _ => none)
+        | _ => objs.map (fun _ => none)
+      match writeHist WState.init (objs.zip fails) with
       | some (_, frames) =>
         pure (Json.mkObj [("stream", hexJson (streamOf frames)), ("frames", Json.num frames.length)])
       | none => pure (Json.mkObj [("res", "pack-error")])
